@@ -148,7 +148,11 @@ def get_bytes_from_code(code):
         The bytes for the code, possibly compressed.
     """
     compressed_bytes = compress.compress_code(code)
-    if len(compressed_bytes) + 8 < len(code):
+    # The uncompressed form is NUL-terminated text and must not read as the
+    # header of the compressed form. Code it cannot represent is stored
+    # compressed whatever its size.
+    raw_ok = b'\0' not in code and bytes(code) != b':c:'
+    if (len(compressed_bytes) + 8 < len(code)) or not raw_ok:
         # Use compressed, if that is smaller once its 8-byte header is
         # counted. (Otherwise code that fits uncompressed could be refused
         # because its slightly smaller compressed form plus header does not.)
